@@ -1,6 +1,7 @@
 package main
 
 import (
+	"go/constant"
 	"fmt"
 	"go/token"
 	"go/types"
@@ -834,5 +835,61 @@ func clTerminatorAlways(c *Ctx) {
 		}
 		c.Check(ev != nil && strip(rfi.RetVal(ret, 1)) == ev, ri, ret, "ReadItem returns the decoder's error unchanged",
 			"the reader replaces the decoder's error (e.g. EOF before the terminator) on some path: a shard cut off at an item boundary is accepted as complete")
+	}
+}
+
+// Per-stream state of the shard codec: every writer/reader owns its scratch
+// buffer, and a shard file is written from offset 0 (never appended to).
+func clStreamPrivateState(c *Ctx) {
+	p := c.P
+	n := 0
+	for _, typ := range []string{"rawFileWriter", "rawFileReader"} {
+		fBuf := p.Field("nitro", typ, "buf")
+		for _, w := range p.fieldWrites(fBuf) {
+			n++
+			v := strip(w.val)
+			fresh := false
+			switch x := v.(type) {
+			case *ssa.MakeSlice:
+				fresh = true
+			case *ssa.Slice:
+				if al, ok := strip(x.X).(*ssa.Alloc); ok && al.Heap {
+					fresh = true // make([]byte, const) lowered to new [N]byte + slice
+				}
+			}
+			c.Check(fresh, w.fn, w.in, "the codec scratch buffer of a "+typ+" is allocated for that stream",
+				"several streams share one scratch buffer: StoreToDisk and LoadFromDisk drive their shard and delta streams from different goroutines, so one stream's length prefix is overwritten by another's before it is copied out — frames carry a foreign length")
+		}
+	}
+	if n < 2 {
+		undecidedf("codec scratch buffers: only %d assignments found", n)
+	}
+	// open flags of the shard writer
+	wopen := p.Func("nitro", "rawFileWriter", "Open")
+	found := false
+	for _, in := range p.Info(wopen).Instrs {
+		cc := callOf(in)
+		if cc == nil || cc.StaticCallee() == nil || cc.StaticCallee().String() != "os.OpenFile" {
+			continue
+		}
+		found = true
+		fl, ok := constInt(cc.Args[1])
+		osConst := func(name string) int64 {
+			if pk := p.SSA.ImportedPackage("os"); pk != nil {
+				if k, ok := pk.Pkg.Scope().Lookup(name).(*types.Const); ok {
+					if v, exact := constant.Int64Val(constant.ToInt(k.Val())); exact {
+						return v
+					}
+				}
+			}
+			undecidedf("os.%s not resolvable", name)
+			return 0
+		}
+		oWRONLY, oRDWR, oAPPEND, oCREATE := osConst("O_WRONLY"), osConst("O_RDWR"), osConst("O_APPEND"), osConst("O_CREATE")
+		c.Check(ok && fl&oAPPEND == 0 && fl&oCREATE != 0 && fl&(oWRONLY|oRDWR) != 0, wopen, in, "shard files are created/opened for writing from offset 0 (no O_APPEND)",
+			"with O_APPEND a backup into a directory that already holds shard files is written after the old stream: the reader returns the old items up to the old terminator")
+	}
+	if !found {
+		undecidedf("rawFileWriter.Open: os.OpenFile not found")
 	}
 }
